@@ -324,6 +324,11 @@ def add(cases, engine, args, label):
 def pad_sigops(rng, txs, target, where, malformed):
     """add one script so that the block's legacy sigop total becomes `target`"""
     txs = copy.deepcopy(txs)
+    if where == 'cb-in':
+        # part of the total sits in the coinbase's scriptSig (2..100 bytes of "arbitrary data" that is
+        # nevertheless counted as a script); the rest goes to a coinbase output
+        txs[0][1][0][2] = b'\x01\x01' + b'\xac' * rng.choice([1, 11, 60, 98])
+        where = 'cb-out'
     need = target - sum(tx_sigops(t) for t in txs)
     assert need >= 0
     script = b'\xae' * (need // 20) + b'\xac' * (need % 20)
@@ -410,7 +415,9 @@ def gen_block_family(rng, ntx, witness, big):
         for label, c in tx_mutations(rng, txs[j], False):
             emit('blk-tx-' + label, finalize(rng, txs[:j] + [c] + txs[j + 1:]), rng.choice([(1, 1), (0, 0), (1, 1)]))
     # --- sigops
-    wheres = ['cb-out'] + (['tx-out', 'tx-in', 'split'] if len(txs) > 1 else [])
+    wheres = ['cb-out', 'cb-in'] + (['tx-out', 'tx-in', 'split'] if len(txs) > 1 else [])
+    for target in (20000, 20001):
+        emit('blk-sigops-%d-cb-in' % target, finalize(rng, pad_sigops(rng, txs, target, 'cb-in', None)), (rng.choice([0, 1]), 1))
     for target in (19999, 20000, 20001, 20020):
         for mal in ((None, 'tail', 'data') if big else (rng.choice([None, 'tail', 'data']),)):
             where = rng.choice(wheres)
